@@ -49,6 +49,8 @@ class Ctx:
             self.nontrivial.add(h)
         if sample is not None and len(self.samples) < self.MAX_SAMPLES:
             self.samples.append(sample)
+        elif not self.samples and self.evaluations == 1:
+            self._fallback_sample = {"case_digest": repr(digest)[:500]}
 
     def count(self, name, k=1):
         self.counters[name] = self.counters.get(name, 0) + k
@@ -77,7 +79,8 @@ class Ctx:
         return {
             "shard": self.shard, "evaluations": self.evaluations, "digests": sorted(self.digests),
             "nontrivial": sorted(self.nontrivial), "counters": self.counters,
-            "sets": {k: sorted(v, key=str)[:5000] for k, v in self.sets.items()}, "samples": self.samples,
+            "sets": {k: sorted(v, key=str)[:5000] for k, v in self.sets.items()},
+            "samples": self.samples if self.samples else ([self._fallback_sample] if getattr(self, "_fallback_sample", None) else []),
             "violations": self.violations, "n_violations": self.n_violations, "rejected": self.rejected,
             "notes": self.notes,
         }
